@@ -69,6 +69,16 @@ def witnesses():
               [([], 'p:'), (['p:a'], ''), ([], '')]))
     W.append(('cmd --k=({{{ %s }}} || wy);\n' % P(1, ['--k=wx', 'zz']), {1: ['--k=wx', 'zz']},
               [([], '--k=w'), ([], '--k='), ([], '--k=z')]))
+    # words of the same shape with DIFFERENT commands (same-shaped within-word automata share one table function in the
+    # script: what is specific to one word -- its command -- must not be shared), two and three words, | and sequence
+    W.append(('cmd (--user={{{ %s }}} | --host={{{ %s }}}) end;\n' % (P(1, ['alice', 'bob']), P(2, ['h1', 'h2x'])),
+              {1: ['alice', 'bob'], 2: ['h1', 'h2x']},
+              [([], '--user='), ([], '--host='), ([], '--user=a'), ([], '--host=h'), (['--user=bob'], ''), (['--host=h1'], ''),
+               (['--user=h1'], ''), (['--host=alice'], '')]))
+    W.append(('cmd --a={{{ %s }}} --b={{{ %s }}} --c={{{ %s }}} end;\n' % (P(1, ['x1']), P(2, ['y2', 'y3']), P(3, ['z'])),
+              {1: ['x1'], 2: ['y2', 'y3'], 3: ['z']},
+              [([], '--a='), (['--a=x1'], '--b='), (['--a=x1', '--b=y3'], '--c='), (['--a=x1', '--b=y2', '--c=z'], ''),
+               (['--a=y2'], ''), (['--a=x1', '--b=z'], '')]))
     return W
 
 
